@@ -130,6 +130,17 @@ func ruleC19ListedFirst(c *Ctx) {
 			}
 		}
 	})
+	// ... or every name of the map is gone through in sorted order and the processed ones are passed over at the emission
+	for _, g := range guardsOf(second) {
+		if lk, ok := g.Cond.(*ssa.Lookup); ok && !g.Pol && processed != nil && sharesSource(lk.X, processed) && sharesSource(lk.Index, second.Call.Args[0]) {
+			collected = true
+		}
+		if ex, ok := g.Cond.(*ssa.Extract); ok && !g.Pol && ex.Index == 1 && processed != nil {
+			if lk, ok := ex.Tuple.(*ssa.Lookup); ok && sharesSource(lk.X, processed) && sharesSource(lk.Index, second.Call.Args[0]) {
+				collected = true
+			}
+		}
+	}
 	c.R.Check(collected, rule, "second-pass:complement-of-listed", c.pos(sortCall), "the remainder consists of the names not recorded as processed", "the remainder is not collected under the negated `processed` test: listed names would be emitted twice, or unlisted ones dropped")
 	// the sort (and with it the second pass) lies on every path from entry to a successful return
 	through := map[*ssa.BasicBlock]bool{sortCall.Block(): true}
